@@ -15,3 +15,4 @@ for d in seeded/*/; do
   fi
 done
 git -C /repo status --porcelain --untracked-files=no
+echo "NOTE: the evidence files now describe the last seeded run; run tools/refresh.sh to regenerate them on the unchanged tree."
